@@ -105,6 +105,11 @@ func DeleteBundle(repo string, stores context2.Stores, bundleID string, opts ...
 		for i := uint64(0); e == nil; i++ {
 			// delete everything until an error is found
 			archivePathToBundleFileList := model.GetArchivePathToBundleFileList(repo, bundleID, i)
+			// some stores (S3, the local file system) delete a missing object without an error: stop at the first
+			// index file that is not there, or this loop never ends
+			if has, erh := store.Has(context.Background(), archivePathToBundleFileList); erh == nil && !has {
+				break
+			}
 			e = store.Delete(context.Background(), archivePathToBundleFileList)
 		}
 	} else {
